@@ -445,6 +445,26 @@ def keylog_text(lines, k):
     for _ in range(k.get("blanks", 0)):
         ls.insert(rnd.randrange(len(ls) + 1), "")
     nl = "\r\n" if k.get("crlf") else "\n"
+    if k.get("straddle") and lines:
+        # a long key log (browsers write megabytes): unrelated lines and a comment in front, sized so that byte offset mult * block of the
+        # text lies j bytes into the chosen canonical line (readers that work in blocks see that line cut there)
+        block, mult, which, j = k["straddle"]
+        want = lines[which % len(lines)].split(" ")[1].lower()
+        ti = next((i for i, ln in enumerate(ls) if len(ln.split(" ")) == 3 and ln.split(" ")[1].lower() == want and
+                   ln.split(" ")[0] == lines[which % len(lines)].split(" ")[0]), None)
+        if ti is not None:
+            off = sum(len(x) + len(nl) for x in ls[:ti])
+            j = j % (len(ls[ti]) + len(nl))
+            need = block * mult - j - off
+            while need < 8:
+                need += block
+            filler = []
+            while need > 420:
+                ln = "CLIENT_RANDOM " + rnd.randbytes(32).hex() + " " + rnd.randbytes(48).hex()
+                filler.append(ln)
+                need -= len(ln) + len(nl)
+            filler.append("#" + "-" * (need - 1 - len(nl)))
+            ls = filler + ls
     return nl.join(ls) + ("" if k.get("no_final_nl") else nl)
 
 
